@@ -285,18 +285,14 @@ class OffsetPolicy:
                     return tgt[0]
         if opts[0] == ('step',):
             return opts[0]
-        # quiescent: prefer `first`, keep `second` for last
-        pick = None
-        for o in opts:
-            if o[0] == 'fire' and o[1] == self.first:
-                pick = o
-                break
-        if pick is None:
-            rest = [o for o in opts if not (o[0] == 'fire' and o[1] == self.second)]
-            pick = (rest or opts)[0]
-        if pick[0] == 'fire' and pick[1] == self.first and self.armed is None:
+        # quiescent: hold `first` and `second` back until both are pending, then complete them `offset` apart
+        names = {o[1] for o in opts if o[0] == 'fire'}
+        if self.first in names and self.second in names and self.armed is None and not getattr(self, 'done', False):
             self.armed = self.offset
-        return pick
+            self.done = True
+            return [o for o in opts if o[0] == 'fire' and o[1] == self.first][0]
+        rest = [o for o in opts if not (o[0] == 'fire' and o[1] in (self.first, self.second))]
+        return (rest or opts)[0]
 
 
 class ScriptPolicy:
